@@ -8,6 +8,8 @@ Case lines:
      (container 0 Box / 1 &mut / 2 & / 3 Box + CArc context / 4 CArcSome / 5 clone of a shared CArcSome + CArc context) built from an identical value; see harness/prog/src/shapes.rs for the call codes.
  '102 <container> | call ; ..'  the same for traits with TYPE and LIFETIME parameters: one implementor of Store<u32>, Store<u64>, Store<Pod> and Named<'a, u32>, an opaque
      object per instantiation (harness/prog/src/generic.rs).
+ '201 <ti> <generic> | methods'  the impl the REAL #[cglue_forward] generator emits for Fwd<O>, abstracted per method (present, same-named target, arguments passed
+     through in order, result returned) and compared with coq/model/Glue.v gen_forward (theorem C01_forward).
  '104 <handle> | call ; ..'  #[cglue_forward]: the generated impl for Fwd<O> — Fwd(&mut T), Fwd(Box<T>), and opaque objects whose instance is a Fwd(&mut T)
      (harness/prog/src/fwd.rs).
  '108 <enabled> <container> | castop request ; ..'  group casts followed by calls (see C08).
@@ -63,8 +65,9 @@ def gen_cases(rng, tier):
     c, d3 = G.cast_cases(rng, tier)
     e, d4 = G.generic_cases(rng.fork("generic"), tier)
     f, d5 = G.fwd_cases(rng.fork("fwd"), tier)
-    e = e + f
-    d4.update(d5)
+    g, d6 = G.fwd_ir_cases(rng.fork("fwdir"), tier)
+    e = e + f + g
+    d4.update(d5); d4.update(d6)
     d1.update(d2); d1.update(d3); d1.update(d4)
     return a + b + c + e, d1
 
